@@ -175,6 +175,43 @@ theorem message_mapping_roundtrip (t : Transport) (tgt : Target) (m : Msg) (tag 
   refine ⟨rfl, rfl, rfl, rfl, rfl, rfl, rfl, ?_, rfl, rfl, rfl⟩
   cases h : m.durable <;> simp [deliver, send, h]
 
+/-- a sequence of sends is pointwise: whatever the Messages built before or after it, whatever the order in
+which the frames go on the wire (direct sends at once, threadsafe sends whenever the connection's loop runs
+them), the frame published for message `i` is `send` of message `i` alone — its routing key is its own subject
+(or the producer's default when it has none), its headers are its own application properties. -/
+theorem send_sequence_pointwise (t : Transport) (tgt : Target) (ms : List Msg) (order : List Nat) (i : Nat)
+    (f : Frame) :
+    (i, f) ∈ sendSeq t tgt ms order ↔ i ∈ order ∧ ∃ m, ms[i]? = some m ∧ f = send t tgt m := by
+  simp only [sendSeq, List.mem_filterMap, Option.map_eq_some_iff, Prod.mk.injEq]
+  constructor
+  · rintro ⟨j, hj, m, hm, hji, hf⟩
+    subst hji
+    exact ⟨hj, m, hm, hf.symm⟩
+  · rintro ⟨hi, m, hm, hf⟩
+    exact ⟨i, hi, m, hm, rfl, hf.symm⟩
+
+/-- hence independence: two runs that agree on message `i` publish the same frame for it — other Messages, their
+subjects and the publishing order have no say — and the frames go out in the order given -/
+theorem send_sequence_independent (t : Transport) (tgt : Target) (ms ms' : List Msg) (order order' : List Nat)
+    (i : Nat) (f : Frame) (h : ms[i]? = ms'[i]?) (hi : i ∈ order') (hf : (i, f) ∈ sendSeq t tgt ms order) :
+    (i, f) ∈ sendSeq t tgt ms' order' ∧
+    ((∀ j ∈ order, j < ms.length) → (sendSeq t tgt ms order).map Prod.fst = order) := by
+  obtain ⟨_, m, hm, hfm⟩ := (send_sequence_pointwise t tgt ms order i f).1 hf
+  refine ⟨(send_sequence_pointwise t tgt ms' order' i f).2 ⟨hi, m, h ▸ hm, hfm⟩, ?_⟩
+  exact sendSeq_fst t tgt ms order
+
+/-- `send_sequence_pointwise` on the shape `EventDispatcher.publish` produces: a start event for the instance
+queue handed over threadsafe, then a start event for the shared queue, then an event without a subject, the
+first one published last: each frame bears its own routing key (the third the producer's default) -/
+example :
+    let sync : Msg := Msg.setSubject { body := ['a'], properties := [] } (.str (QN ++ ['-', 'i']))
+    let strt : Msg := Msg.setSubject { body := ['b'], properties := [] } (.str QN)
+    let bare : Msg := { body := ['c'], properties := [] }
+    (sendSeq .asyncio ⟨[], QN⟩ [sync, strt, bare] [1, 2, 0]).map (fun p => (p.1, p.2.routingKey, p.2.props.headers)) =
+      [(1, .str QN, [(subjectKey, .str QN)]), (2, .str QN, []),
+       (0, .str (QN ++ ['-', 'i']), [(subjectKey, .str (QN ++ ['-', 'i']))])] := by
+  decide
+
 /-- routing by subject: a message given a non-empty subject is published with that subject as routing key
 whatever the producer's default is, and the default exchange hands it to the queue of that name (if declared)
 and to no other -/
@@ -414,6 +451,31 @@ theorem start_events_shared (s : Net) (via e : Nat) (hu : s.st e = .unused) :
   refine ⟨⟨{ s with ex := (e, .startQueued (route via true)) :: s.ex }, by simp [step, hu], ?_⟩,
     fun _ => trivial, fun _ _ => Iff.rfl, rfl, rfl⟩
   simp [Net.st, lookup, route]
+
+/-- what the REST front end publishes through instance `via`: the start event of a StartExecution
+(`use_shared_queue=True`) is queued in the shared queue, from which every instance may take it; the start event of
+a StartSyncExecution (`use_shared_queue=False`: `via` publishes a start event to its own queue) is queued in
+`via`'s queue, from which `via` and no other instance can take it.  The queue depends on the accepting instance
+and the flag only — not on when the (threadsafe, deferred) publish is carried out or on what else is published
+meanwhile. -/
+theorem rest_start_routing (s : Net) (via e : Nat) (hu : s.st e = .unused) :
+    (∃ s', step s (.submit via e) = some s' ∧ s'.st e = .startQueued (route via true) ∧ route via true = .shared ∧
+      ∀ i, (step s' (.deliverStart e i [])).isSome) ∧
+    (∃ s', step s (.spontaneous via [.childSync e]) = some s' ∧ s'.st e = .startQueued (route via false) ∧
+      route via false = .inst via ∧ ∀ i, (step s' (.deliverStart e i [])).isSome ↔ i = via) := by
+  refine ⟨⟨{ s with ex := (e, .startQueued (route via true)) :: s.ex }, by simp [step, hu], ?_, rfl, ?_⟩,
+    ⟨{ s with ex := (e, .startQueued (route via false)) :: s.ex }, by simp [step, pubs, pub, hu], ?_, rfl, ?_⟩⟩
+  · simp [Net.st, lookup]
+  · intro i
+    simp [step, Net.st, lookup, route, canConsume, pubs]
+  · simp [Net.st, lookup]
+  · intro i
+    simp [step, Net.st, lookup, route, canConsume, pubs]
+
+/-- `rest_start_routing` from the empty network, two instances: the synchronous start accepted by instance 1
+cannot be handed to instance 0 -/
+example : ({} : Net).st 7 = .unused ∧ ∃ s', step {} (.spontaneous 1 [.childSync 7]) = some s' ∧
+    step s' (.deliverStart 7 0 []) = none ∧ (step s' (.deliverStart 7 1 [])).isSome := ⟨rfl, _, rfl, by decide, by decide⟩
 
 /-- the hypotheses of `owner_is_start_consumer` / `start_events_shared` are met from the empty network -/
 example : ({} : Net).st 7 = .unused ∧ ∃ s', step {} (.submit 0 7) = some s' ∧
